@@ -325,7 +325,7 @@ func (e *Engine) callWrites(cc *ssa.CallCommon, w *WriteSet, fn *ssa.Function, v
 		}
 		return
 	case *ssa.Function:
-		if e.contractCallWrites(f, cc, w) {
+		if e.contractCallWrites(f, cc, w, fn) {
 			return
 		}
 		inRegion := func(in ssa.Instruction) bool {
@@ -485,7 +485,7 @@ func (e *Engine) contractWrites(c *FuncContract, w *WriteSet) {
 				w.setAll("loops.go:336")
 				continue
 			}
-			if strings.HasPrefix(a, "Pointee(") {
+			if strings.HasPrefix(a, "Pointee(") || strings.HasPrefix(a, "MapOf(") {
 				w.setAll("assigns " + a + " (no call site)")
 				continue
 			}
